@@ -463,6 +463,8 @@ ACC: Dict[str, Dict[str, Callable]] = {
         "clone": lambda o, r: o.clone(),
         "cube": lambda o, r: o.cube(),
         "coords": lambda o, r: o.coords(),
+        "coords:flip": lambda o, r: o.coords(flip=True),
+        "coords:dim": lambda o, r: o.coords(dim=r.choice([0, o.ndim - 1])),
         "points": lambda o, r: o.points(),
         "transform": lambda o, r: o.transform(Axes.CUBE, Axes.WORLD),
         "get:center": lambda o, r: o.center(),
@@ -953,6 +955,7 @@ class FrameWorld:
                     self.c["probes"]["result_is_an_existing_object"] += 1  # no-op path returned its input
                     continue
                 self.put(int(op["out"]) + k, it, origin)
+                self.last_kept = int(op["out"]) + k
                 break
 
     def op_func(self, op) -> StepResult:
@@ -1215,6 +1218,12 @@ class _Gen:
         if len(self.pool) < sc["min_pool"] or (len(self.pool) < sc["max_pool"] and rng.chance(0.06)):
             kinds = [k for k in OBJECT_KINDS if sc["kinds_on"].get(k.split(":")[0].split("/")[0], True)]
             return {"op": "new", "kind": rng.choice(kinds), "seed": rng.subseed(), "out": self.alloc()}
+        lk = getattr(self, "last_kept", None)
+        self.last_kept = None
+        if lk is not None and isinstance(self.pool.get(lk), Tensor) and rng.chance(0.3):
+            # the client edits, in place, what it was just handed (a result is the caller's to modify unless it is
+            # documented to be the object's own state)
+            return {"op": "raw", "h": lk, "which": 0}
         W = dict(sc["weights"])
         if len(self.pool) >= sc["max_pool"]:
             W["drop"] = W.get("drop", 0) + 3
